@@ -57,7 +57,21 @@ package main
 //           with length n"`, a call of another "res" function is matched on (`.ok v` continues); such
 //           an operation on the right of && / || is refused.
 //   typeCase: one case of a function's top-level `switch g := g.(type)` can be translated on its own,
-//           the switch variable being a parameter of the case's type.
+//           the switch variable being a parameter of the case's type; a call F(x, …) of such a function with x
+//           of a named slice type is resolved to that case.
+//   second batch (maptile.Fraction, internal/mercator, project, geo, resample):
+//           per-package `variable` line and float numerals; per-function `consts` (the Go source of a constant
+//           (sub)expression -> the symbol the model keeps for it: math.Pi, the folded 2*math.Pi, 180.0/math.Pi, a
+//           literal like 85.0511 or 0.9999, a named constant whose definition is checked; arithmetic between two
+//           constants is refused because Go folds it exactly), `libm` (math.Sin/Cos/Log/Atan/… -> explicit function
+//           parameters), `absParam` (math.Abs/Min/Max -> parameters), `natCast` (float64(n) -> a parameter;
+//           uint32(a<<b) -> Orb.Tile.shl32, uint64(a<<b) -> (a <<< b) % 2^64); []float64 -> List α,
+//           make([]T, n) -> List.replicate ("res": a size a-b is checked), xs[i] = e -> xs.set i e (under
+//           for i := range xs, or bounds-checked in a "res" function), orb.Projection -> a pure Pt α → Pt α,
+//           counted loops that use the counter freely -> a fold over List.range' lo (len-(k+lo)), named results
+//           with a bare return, var x = e, a package variable with an initialiser that nothing in the package
+//           assigns -> its initialiser (with `consts`), `varField` (the function literal initialising a field
+//           of a package variable).
 
 import (
 	"encoding/json"
@@ -87,6 +101,8 @@ const (
 	fkUFloat // untyped float constant
 	fkDistFn // orb.DistanceFunc
 	fkZ      // orb.Orientation (an int8 with negative values): Lean Int
+	fkFs     // []float64: List α
+	fkProjFn // orb.Projection: Pt α → Pt α (a pure function: a closure with state is outside the translation)
 	fkPtss   // []Ring, Polygon, MultiLineString: List (List (Pt α))
 	fkPtsss  // []Polygon, MultiPolygon: List (List (List (Pt α)))
 	fkBad
@@ -114,17 +130,29 @@ var (
 
 // ffn describes one Go function the translator is asked for.
 type ffn struct {
-	rel, recv, name string   // Go package dir (relative to the repo root), receiver type, name
-	lean            string   // name of the Lean definition
-	intTy           string   // Lean type of Go's int in this function: "Nat" (default) or "Int"
-	panicMode       string   // "" (no panic allowed), "option" (panic = none), "res" (panic = .panic msg)
-	errTy           string   // "res": the Lean type of the error component of `Res` ("" = String)
-	abstract        []string // functions of the same package that stay opaque: explicit function parameters
-	typeCase        string   // translate the body of this case of the function's top-level `switch g := g.(type)`: the switch
+	rel, recv, name string            // Go package dir (relative to the repo root), receiver type, name
+	lean            string            // name of the Lean definition
+	intTy           string            // Lean type of Go's int in this function: "Nat" (default) or "Int"
+	panicMode       string            // "" (no panic allowed), "option" (panic = none), "res" (panic = .panic msg)
+	errTy           string            // "res": the Lean type of the error component of `Res` ("" = String)
+	abstract        []string          // functions of the same package that stay opaque: explicit function parameters
+	consts          map[string]fconst // Go source of a constant (sub)expression, blanks removed -> what it is in Lean
+	libm            bool              // math.Sin / math.Log -> the explicit parameters `sin` / `log`
+	absParam        bool              // math.Abs -> the explicit parameter `abs` (the models of package geo) instead of `fabs`
+	natCast         string            // float64(n) -> this explicit parameter (Nat → α) instead of Nat.cast
+	varField        bool              // name = "V.F": the function literal that initialises field F of the package variable V (nothing in the package assigns V)
+	typeCase        string            // translate the body of this case of the function's top-level `switch g := g.(type)`: the switch
 	// variable becomes a parameter of the case's type, in place of the (dropped) interface parameter
 	prefixUntil string // translate only the leading statements before the first one that mentions this identifier …
 	prefixRet   []string
 	dropParams  []string // … returning these variables; these parameters are omitted
+}
+
+// fconst: a compile-time constant of the Go source the models keep as a symbol (or write differently)
+type fconst struct {
+	lean   string
+	extras []string
+	def    string // for a named constant of the package: the initialiser it must have (blanks removed)
 }
 
 type fsig struct {
@@ -140,10 +168,14 @@ type fsig struct {
 var fsigs = map[string]*fsig{}
 
 type fpkgSpec struct {
-	file    string // Lean module name under Generated
-	rel     string // Go package directory
-	imports []string
-	fns     []ffn
+	file     string // Lean module name under Generated
+	rel      string // Go package directory
+	imports  []string
+	fns      []ffn
+	leanImps []string        // further Lean modules to import
+	opens    []string        // further namespaces to open
+	vars     string          // the `variable` line ("" = floatVariables)
+	numerals map[string]bool // float numerals with an OfNat instance in `vars` (nil = floatNumerals)
 }
 
 // The functions asked for, per Go package, in dependency order.
@@ -220,6 +252,7 @@ var floatPkgs = []fpkgSpec{
 		{name: "Length", lean: "lengthRing", typeCase: "orb.Ring", dropParams: []string{"g"}},
 		{name: "Length", lean: "lengthPolygon", typeCase: "orb.Polygon", dropParams: []string{"g"}},
 		{name: "Length", lean: "lengthMultiPolygon", typeCase: "orb.MultiPolygon", dropParams: []string{"g"}},
+		{name: "Length", lean: "lengthBound", typeCase: "orb.Bound", dropParams: []string{"g"}},
 	}},
 	{file: "QuadtreeGo", rel: "quadtree", imports: []string{"BoundGo", "PlanarGo"}, fns: []ffn{
 		{name: "childIndex", lean: "childIndex"},
@@ -229,6 +262,74 @@ var floatPkgs = []fpkgSpec{
 	{file: "SimplifyGo", rel: "simplify", imports: []string{"BoundGo"}, fns: []ffn{
 		{name: "doubleTriangleArea", lean: "doubleTriangleArea"},
 	}},
+	{file: "TileGeoGo", rel: "maptile", imports: []string{"BoundGo"}, leanImps: []string{"Orb.Tile"}, opens: []string{"Orb.Tile (shl32)"},
+		vars: "variable {α : Type} [Add α] [Sub α] [Mul α] [Div α] [Neg α] [LT α] [DecidableLT α]\n" +
+			"  [OfNat α 0] [OfNat α 1] [OfNat α 2] [OfNat α 90] [OfNat α 180] [OfNat α 360]",
+		numerals: map[string]bool{"0": true, "1": true, "2": true, "90": true, "180": true, "360": true},
+		fns: []ffn{
+			// the models (Orb.TileGeo) keep libm's functions, math.Pi, the folded constant 2*math.Pi and the
+			// literal 85.0511 as symbols, write 0.5 as 1/2, and convert through `ofNat`
+			{name: "Fraction", lean: "fraction", libm: true, natCast: "ofNat", consts: map[string]fconst{
+				"0.5": {"(1 / 2)", nil, ""}, "85.0511": {"latMax", []string{"latMax"}, ""}, "math.Pi": {"pi", []string{"pi"}, ""},
+				"-2*math.Pi": {"(-twoPi)", []string{"twoPi"}, ""}}},
+		}},
+	{file: "GeoGo", rel: "geo", imports: []string{"BoundGo"},
+		vars:     floatVariables + " [OfNat α 90] [OfNat α 180]",
+		numerals: map[string]bool{"0": true, "1": true, "2": true, "6": true, "90": true, "180": true},
+		fns: []ffn{
+			// the models (Orb.Geo) take libm's functions, math.Abs / Min / Max, math.Pi and orb.EarthRadius from
+			// the record `Fn`; 2*math.Pi and 2.0*orb.EarthRadius (folded by Go; doubling is exact) are products there
+			{name: "deg2rad", lean: "deg2rad", consts: geoConsts},
+			{name: "rad2deg", lean: "rad2deg", consts: geoConsts},
+			{name: "Distance", lean: "distance", libm: true, absParam: true, consts: geoConsts},
+			{name: "DistanceHaversine", lean: "distanceHaversine", libm: true, absParam: true, consts: geoConsts},
+			{name: "Bearing", lean: "bearing", libm: true, absParam: true, consts: geoConsts},
+			{name: "Midpoint", lean: "midpoint", libm: true, absParam: true, consts: geoConsts},
+			{name: "PointAtBearingAndDistance", lean: "pointAtBearingAndDistance", libm: true, absParam: true, consts: geoConsts},
+			{name: "PointAtDistanceAlongLine", lean: "pointAtDistanceAlongLine", panicMode: "res", errTy: "Unit", libm: true, absParam: true, consts: geoConsts},
+			{name: "NewBoundAroundPoint", lean: "newBoundAroundPoint", libm: true, absParam: true, consts: geoConsts},
+			{name: "BoundPad", lean: "boundPad", libm: true, absParam: true, consts: geoConsts},
+			{name: "BoundHeight", lean: "boundHeight", libm: true, absParam: true, consts: geoConsts},
+			{name: "BoundWidth", lean: "boundWidth", libm: true, absParam: true, consts: geoConsts},
+			// the spherical-excess loop of ringArea stays opaque (a function parameter); math.Abs is the models' F.abs
+			{name: "SignedArea", lean: "signedArea", abstract: []string{"ringArea"}},
+			{name: "polygonArea", lean: "polygonArea", abstract: []string{"ringArea"}, absParam: true},
+			{name: "multiPolygonArea", lean: "multiPolygonArea"},
+			{name: "Area", lean: "areaRing", typeCase: "orb.Ring", dropParams: []string{"g"}, abstract: []string{"ringArea"}, absParam: true},
+			{name: "Area", lean: "areaPolygon", typeCase: "orb.Polygon", dropParams: []string{"g"}},
+			{name: "Area", lean: "areaMultiPolygon", typeCase: "orb.MultiPolygon", dropParams: []string{"g"}},
+			{name: "Area", lean: "areaBound", typeCase: "orb.Bound", dropParams: []string{"g"}},
+		}},
+	{file: "ResampleGo", rel: "resample", imports: []string{"BoundGo"}, leanImps: []string{"Orb.Resample"}, fns: []ffn{
+		{name: "precomputeDistances", lean: "precomputeDistances", panicMode: "res", errTy: "Resample.Fail"},
+	}},
+	{file: "ProjectGo", rel: "project", imports: []string{"BoundGo"},
+		vars:     floatVariables + " [OfNat α 90] [OfNat α 180] [OfNat α 360]",
+		numerals: map[string]bool{"0": true, "1": true, "2": true, "6": true, "90": true, "180": true, "360": true},
+		fns: []ffn{
+			// projections.go: the closures of the package variables Mercator / WGS84; the models (Orb.Project) keep the
+			// folded constants as symbols of the record MFn
+			{name: "Mercator.ToWGS84", lean: "mercatorToWGS84", varField: true, libm: true, absParam: true, consts: projConsts},
+			{name: "WGS84.ToMercator", lean: "wgs84ToMercator", varField: true, libm: true, absParam: true, consts: projConsts},
+			{name: "Point", lean: "projPoint"},
+			{name: "MultiPoint", lean: "projMultiPoint"},
+			{name: "LineString", lean: "projLineString"},
+			{name: "MultiLineString", lean: "projMultiLineString"},
+			{name: "Ring", lean: "projRing"},
+			{name: "Polygon", lean: "projPolygon"},
+			{name: "MultiPolygon", lean: "projMultiPolygon"},
+			{name: "Bound", lean: "projBound"},
+		}},
+	{file: "MercatorGo", rel: "internal/mercator", imports: []string{"BoundGo"}, leanImps: []string{"Orb.Tile"},
+		vars: "variable {α : Type} [Add α] [Sub α] [Mul α] [Div α] [Neg α] [LT α] [DecidableLT α]\n" +
+			"  [OfNat α 0] [OfNat α 1] [OfNat α 2] [OfNat α 90] [OfNat α 180] [OfNat α 360]",
+		numerals: map[string]bool{"0": true, "1": true, "2": true, "90": true, "180": true, "360": true},
+		fns: []ffn{
+			// the models (Orb.Project, Orb.TileGeo) keep libm's functions, math.Pi, the folded constants 2*math.Pi and
+			// 180.0/math.Pi and the literal 0.9999 as symbols, write 0.5 as 1/2, and convert through `ofNat`
+			{name: "ToPlanar", lean: "toPlanar", libm: true, natCast: "ofNat", consts: mercConsts},
+			{name: "ToGeo", lean: "toGeo", libm: true, natCast: "ofNat", consts: mercConsts},
+		}},
 	{file: "SmartclipGo", rel: "clip/smartclip", imports: []string{"BoundGo"}, fns: []ffn{
 		{name: "bitCodeOpen", lean: "bitCodeOpen"},
 		{name: "pointSide", lean: "pointSide"},
@@ -247,11 +348,14 @@ type ftrans struct {
 	nk     int // join points
 	notes  map[string]bool
 	// loop substitution: printed Go index expression -> Lean variable
-	subst   map[string]fsub
-	retTys  []fty
-	inIndex bool // inside xs[…]: a negative index is a Go panic, which the translation does not cover anyway
-	depth   int  // scope depth (0 = the function's top-level block)
-	body    ast.Node
+	subst        map[string]fsub
+	retTys       []fty
+	numerals     map[string]bool
+	namedResults []string
+	inPkgVar     bool
+	inIndex      bool // inside xs[…]: a negative index is a Go panic, which the translation does not cover anyway
+	depth        int  // scope depth (0 = the function's top-level block)
+	body         ast.Node
 	// loops
 	loopK     string // inside a loop body: the Lean term for `continue` ("" = not in a loop)
 	inRetLoop bool   // inside the body of a loop that may return: `return e` is `Sum.inl e`
@@ -393,7 +497,7 @@ func (t *ftrans) intTy() string {
 	return "Nat"
 }
 
-func isList(ty fty) bool { return ty.k == fkPts || ty.k == fkPtss || ty.k == fkPtsss }
+func isList(ty fty) bool { return ty.k == fkPts || ty.k == fkPtss || ty.k == fkPtsss || ty.k == fkFs }
 
 // the named slice types of package orb
 var listNames = map[string]fkind{"LineString": fkPts, "Ring": fkPts, "MultiPoint": fkPts,
@@ -415,6 +519,8 @@ func elemTy(ty fty) fty {
 		}
 	}
 	switch ty.k {
+	case fkFs:
+		return tF
 	case fkPts:
 		return tP
 	case fkPtss:
@@ -434,9 +540,11 @@ func elemTy(ty fty) fty {
 // zeroOf: the Lean text of Go's zero value of the type (what xs.getD falls back to)
 func zeroOf(ty fty) string {
 	switch ty.k {
+	case fkFloat:
+		return "0"
 	case fkPt:
 		return "⟨0, 0⟩"
-	case fkPts, fkPtss, fkPtsss:
+	case fkPts, fkPtss, fkPtsss, fkFs:
 		return "[]"
 	}
 	return ""
@@ -458,12 +566,16 @@ func (t *ftrans) leanTy(ty fty) string {
 		return "Bound α"
 	case fkPts:
 		return "List (Pt α)"
+	case fkFs:
+		return "List α"
 	case fkPtss:
 		return "List (List (Pt α))"
 	case fkPtsss:
 		return "List (List (List (Pt α)))"
 	case fkDistFn:
 		return "Pt α → Pt α → α"
+	case fkProjFn:
+		return "Pt α → Pt α"
 	case fkTuple:
 		var s []string
 		for _, e := range ty.el {
@@ -481,6 +593,8 @@ func fgoTy(e ast.Expr) fty {
 		}
 		el := fgoTy(at.Elt)
 		switch el.k {
+		case fkFloat:
+			return fty{k: fkFs, name: "[]float64"}
 		case fkPt:
 			return fty{k: fkPts, name: "[]Point"}
 		case fkPts:
@@ -501,7 +615,7 @@ func fgoTy(e ast.Expr) fty {
 	switch n {
 	case "float64":
 		return tF
-	case "int", "uint8":
+	case "int", "uint8", "uint32", "Zoom":
 		return tI
 	case "Orientation":
 		return tZ
@@ -515,6 +629,8 @@ func fgoTy(e ast.Expr) fty {
 		return fty{k: listNames[n], name: n}
 	case "DistanceFunc":
 		return fty{k: fkDistFn}
+	case "Projection":
+		return fty{k: fkProjFn}
 	}
 	return tBad
 }
@@ -555,7 +671,8 @@ var leanReserved = map[string]bool{"from": true, "to": true, "at": true, "fun": 
 	"scoped": true, "noncomputable": true, "opaque": true, "axiom": true, "unsafe": true, "sorry": true, "admit": true,
 	"α": true, "sqrt": true, "next": true, "min": true, "max": true, "fabs": true, "ptEq": true, "foldPairs": true, "decide": true,
 	"some": true, "none": true, "p_": true, "q_": true, "x_": true, "ret_": true, "e_": true, "m_": true,
-	"eb": true, "inf": true, "foldlRet": true, "foldPairsRet": true}
+	"eb": true, "inf": true, "foldlRet": true, "foldPairsRet": true,
+	"abs": true, "cos": true, "asin": true, "atan2": true, "fmax": true, "fmin": true, "R": true, "mPerDeg": true, "atan": true, "exp": true, "tan": true, "d180pi": true, "c9999": true, "piHalf": true, "rPi": true, "rPi180": true, "sin": true, "log": true, "pi": true, "twoPi": true, "latMax": true, "ofNat": true, "shl32": true}
 
 func lid(name string) string {
 	if leanReserved[name] || strings.HasPrefix(name, "k_") || strings.HasPrefix(name, "v_") {
@@ -670,7 +787,11 @@ func constTypeName(rel, name string) string {
 
 // numOK: an untyped numeral that becomes a float needs `OfNat α n`; the models' signature has 0, 1, 2, 6
 func (t *ftrans) numOK(s string, ty fty) bool {
-	if (ty.k == fkUInt || ty.k == fkUFloat) && !floatNumerals[s] {
+	nums := floatNumerals
+	if t.numerals != nil {
+		nums = t.numerals
+	}
+	if (ty.k == fkUInt || ty.k == fkUFloat) && !nums[s] {
 		t.fail("float constant %s (the models are stated for the numerals 0, 1, 2, 6 only)", s)
 		return false
 	}
@@ -678,6 +799,9 @@ func (t *ftrans) numOK(s string, ty fty) bool {
 }
 
 func isAtom(s string) bool {
+	if strings.HasPrefix(s, "-") || strings.HasPrefix(s, "!") {
+		return false // (a prefix operator: `f -x` would be a subtraction)
+	}
 	if strings.HasPrefix(s, "(") && strings.HasSuffix(s, ")") {
 		// balanced from the first to the last character?
 		d := 0
@@ -713,6 +837,24 @@ func (t *ftrans) expr(e ast.Expr) (string, fty) {
 			return v.v, v.ty
 		}
 	}
+	if t.spec.consts != nil {
+		if c, ok := t.spec.consts[strings.Join(strings.Fields(src(t.pk, e)), "")]; ok {
+			if c.def != "" {
+				id, isId := e.(*ast.Ident)
+				v, found := "", false
+				if isId {
+					v, found = constValueOf(t.pk.rel, id.Name)
+				}
+				if _, local := t.vars[src(t.pk, e)]; local || !found || strings.Join(strings.Fields(v), "") != c.def {
+					return t.fail("the constant %s is not defined as %s", src(t.pk, e), c.def), tBad
+				}
+			}
+			for _, ex := range c.extras {
+				t.extras[ex] = true
+			}
+			return c.lean, fty{k: fkFloat, name: "const"} // (a constant: arithmetic between constants is folded by Go)
+		}
+	}
 	switch x := e.(type) {
 	case *ast.BasicLit:
 		switch x.Kind {
@@ -740,6 +882,21 @@ func (t *ftrans) expr(e ast.Expr) (string, fty) {
 		}
 		if s, ty, ok := t.constant(t.pk.rel, x.Name); ok {
 			return s, ty
+		}
+		if init := pkgVarInit(t.pk, x.Name); init != nil && t.spec.consts != nil && !t.inPkgVar {
+			// a package-level variable with an initialiser that nothing in the package assigns or takes the
+			// address of: its initialiser, translated in place (as the models have it)
+			t.inPkgVar = true
+			savedVars := t.vars
+			t.vars = map[string]fty{}
+			v, ty := t.expr(init)
+			t.vars = savedVars
+			t.inPkgVar = false
+			if ty.k == fkFloat && len(t.pending) == 0 {
+				t.notes["pkg-var-init"] = true
+				return par(v), tF
+			}
+			return t.fail("package variable %s", x.Name), tBad
 		}
 		if x.Name == "emptyBound" && t.pk.rel == "." && isPkgVar(".", "emptyBound") {
 			// the package's sentinel (a variable): the explicit parameter `eb`, as in the models; its
@@ -781,7 +938,7 @@ func (t *ftrans) expr(e ast.Expr) (string, fty) {
 					return par(base) + ".y", tF
 				}
 			}
-		case fkPts, fkPtss, fkPtsss:
+		case fkPts, fkPtss, fkPtsss, fkFs:
 			wasIn := t.inIndex
 			t.inIndex = true
 			i, ity := t.expr(x.Index)
@@ -860,7 +1017,7 @@ func (t *ftrans) expr(e ast.Expr) (string, fty) {
 		if x.Op == token.SUB {
 			a, ty := t.expr(x.X)
 			if ty.k == fkFloat {
-				return "-" + par(a), tF
+				return "-" + par(a), fty{k: fkFloat, name: ty.name}
 			}
 			if (ty.k == fkInt || ty.k == fkUInt) && t.intTy() == "Int" {
 				return "(-" + par(a) + ")", tI
@@ -879,7 +1036,8 @@ func (t *ftrans) expr(e ast.Expr) (string, fty) {
 		l, lt := t.expr(x.X)
 		r, rt := t.expr(x.Y)
 		ty := fUnify(lt, rt)
-		if ty.k == fkUInt || ty.k == fkUFloat {
+		isC := func(ty fty) bool { return ty.k == fkUInt || ty.k == fkUFloat || ty.name == "const" }
+		if ty.k == fkUInt || ty.k == fkUFloat || (isC(lt) && isC(rt)) {
 			return t.fail("constant expression %s (Go evaluates it exactly at compile time)", src(t.pk, e)), tBad
 		}
 		if ty.k == fkInt && x.Op == token.SUB && t.intTy() == "Nat" && !t.inIndex {
@@ -936,6 +1094,84 @@ func structFields(rel, name string) []string {
 		}
 	}
 	return out
+}
+
+// pkgVarInit: the initialiser of the package-level variable `name` (one name, one value), provided no
+// statement of the package assigns a variable of that name, declares one again, or takes its address
+func pkgVarInit(pk *pkgFiles, name string) ast.Expr {
+	var init ast.Expr
+	n := 0
+	for _, f := range pk.files {
+		for _, d := range f.Decls {
+			gd, ok := d.(*ast.GenDecl)
+			if !ok || gd.Tok != token.VAR {
+				continue
+			}
+			for _, s := range gd.Specs {
+				if vs, ok := s.(*ast.ValueSpec); ok {
+					for _, id := range vs.Names {
+						if id.Name == name {
+							n++
+							if len(vs.Names) == 1 && len(vs.Values) == 1 {
+								init = vs.Values[0]
+							}
+						}
+					}
+				}
+			}
+		}
+	}
+	if n != 1 || init == nil {
+		return nil
+	}
+	for _, f := range pk.files {
+		for _, d := range f.Decls {
+			if fd, ok := d.(*ast.FuncDecl); ok && fd.Body != nil {
+				if writes(fd.Body, name) {
+					return nil
+				}
+				for _, fl := range []*ast.FieldList{fd.Recv, fd.Type.Params, fd.Type.Results} {
+					if fl != nil {
+						for _, p := range fl.List {
+							for _, id := range p.Names {
+								if id.Name == name {
+									return nil
+								}
+							}
+						}
+					}
+				}
+			}
+		}
+	}
+	return init
+}
+
+// findVarFieldFunc: for name "V.F", the function literal given to field F in the struct literal that
+// initialises the package variable V, as a function declaration
+func findVarFieldFunc(rel, name string) (*pkgFiles, *ast.FuncDecl) {
+	parts := strings.SplitN(name, ".", 2)
+	pk := pkgs[rel]
+	if pk == nil || len(parts) != 2 {
+		return nil, nil
+	}
+	init := pkgVarInit(pk, parts[0])
+	cl, ok := init.(*ast.CompositeLit)
+	if init == nil || !ok {
+		return nil, nil
+	}
+	for _, el := range cl.Elts {
+		kv, ok := el.(*ast.KeyValueExpr)
+		if !ok {
+			continue
+		}
+		if k, ok := kv.Key.(*ast.Ident); ok && k.Name == parts[1] {
+			if fl, ok := kv.Value.(*ast.FuncLit); ok {
+				return pk, &ast.FuncDecl{Name: ast.NewIdent(parts[1]), Type: fl.Type, Body: fl.Body}
+			}
+		}
+	}
+	return nil, nil
 }
 
 // isPkgVar: a package-level variable of the package
@@ -1053,11 +1289,58 @@ func (t *ftrans) call(x *ast.CallExpr) (string, fty) {
 			t.extras["sqrt"] = true
 			return "sqrt " + as[0], tF
 		}
+	case "math.Sin", "math.Log", "math.Cos", "math.Asin", "math.Atan", "math.Exp", "math.Tan":
+		if t.spec.libm {
+			if as, ok := floatArgs(1); ok {
+				fn := strings.ToLower(fun[5:])
+				t.extras[fn] = true
+				return fn + " " + as[0], tF
+			}
+		}
+	case "math.Atan2":
+		if t.spec.libm {
+			if as, ok := floatArgs(2); ok {
+				t.extras["atan2"] = true
+				return "atan2 " + as[0] + " " + as[1], tF
+			}
+		}
+	case "uint64":
+		// uint64(a << b): the 64-bit shift
+		if len(x.Args) == 1 && t.intTy() == "Nat" && t.spec.natCast != "" {
+			if b, ok := x.Args[0].(*ast.BinaryExpr); ok && b.Op == token.SHL {
+				l, lt := t.expr(b.X)
+				r, rt := t.expr(b.Y)
+				if (lt.k == fkInt || lt.k == fkUInt) && rt.k == fkInt {
+					return "((" + par(l) + " <<< " + par(r) + ") % 2 ^ 64)", tI
+				}
+			}
+		}
+	case "uint32":
+		// uint32(a << b): the 32-bit shift of Orb.Tile
+		if len(x.Args) == 1 && t.intTy() == "Nat" && t.spec.natCast != "" {
+			if b, ok := x.Args[0].(*ast.BinaryExpr); ok && b.Op == token.SHL {
+				l, lt := t.expr(b.X)
+				r, rt := t.expr(b.Y)
+				if (lt.k == fkInt || lt.k == fkUInt) && rt.k == fkInt {
+					return "Orb.Tile.shl32 " + par(l) + " " + par(r), tI
+				}
+			}
+		}
 	case "math.Abs":
+		if as, ok := floatArgs(1); ok && t.spec.absParam {
+			t.extras["abs"] = true
+			return "abs " + as[0], tF
+		}
 		if as, ok := floatArgs(1); ok {
 			return "fabs " + as[0], tF
 		}
 	case "math.Min", "math.Max":
+		if as, ok := floatArgs(2); ok && t.spec.absParam {
+			// (package geo's models take math.Min / math.Max from their function record)
+			fn := "f" + strings.ToLower(fun[5:])
+			t.extras[fn] = true
+			return fn + " " + as[0] + " " + as[1], tF
+		}
 		if as, ok := floatArgs(2); ok {
 			return strings.ToLower(fun[5:]) + " " + as[0] + " " + as[1], tF
 		}
@@ -1094,6 +1377,30 @@ func (t *ftrans) call(x *ast.CallExpr) (string, fty) {
 				}
 			}
 		}
+	case "make":
+		// make([]T, n): n zero values.  A size a - b is negative (a panic) when a < b: only "res" functions
+		if len(x.Args) == 2 && t.intTy() == "Nat" {
+			lt := fgoTy(x.Args[0])
+			if _, isArr := x.Args[0].(*ast.ArrayType); isArr && isList(lt) {
+				size := x.Args[1]
+				if b, ok := size.(*ast.BinaryExpr); ok && b.Op == token.SUB && t.spec.panicMode == "res" && !hasSub(b.X) && !hasSub(b.Y) {
+					np := len(t.pending)
+					l, lty := t.expr(b.X)
+					r, rty := t.expr(b.Y)
+					if len(t.pending) == np && fUnify(lty, tI).k == fkInt && fUnify(rty, tI).k == fkInt {
+						l, r = par(l), par(r)
+						t.pending = append(t.pending, fpend{guard: r + " ≤ " + l, msg: "\"makeslice: len out of range\""})
+						return "List.replicate (" + l + " - " + r + ") " + zeroOf(elemTy(lt)), fty{k: lt.k, name: lt.name}
+					}
+				} else if !hasSub(size) {
+					n, nty := t.expr(size)
+					if fUnify(nty, tI).k == fkInt {
+						return "List.replicate " + par(n) + " " + zeroOf(elemTy(lt)), fty{k: lt.k, name: lt.name}
+					}
+				}
+			}
+		}
+		return t.fail("make %s", src(t.pk, x)), tBad
 	case "math.Inf":
 		// +Inf: the explicit parameter `inf`
 		if len(x.Args) == 1 && src(t.pk, x.Args[0]) == "1" {
@@ -1105,6 +1412,10 @@ func (t *ftrans) call(x *ast.CallExpr) (string, fty) {
 			a, ty := t.expr(x.Args[0])
 			if ty.k == fkFloat {
 				return a, tF
+			}
+			if ty.k == fkInt && t.intTy() == "Nat" && t.spec.natCast != "" {
+				t.extras[t.spec.natCast] = true
+				return t.spec.natCast + " " + par(a), tF
 			}
 			if ty.k == fkInt && t.intTy() == "Nat" {
 				return "(" + a + " : α)", tF // Nat.cast, as in the models
@@ -1123,6 +1434,17 @@ func (t *ftrans) call(x *ast.CallExpr) (string, fty) {
 	}
 	if t.err != "" {
 		return "unsupported", tBad
+	}
+	// a Projection variable
+	if id, ok := x.Fun.(*ast.Ident); ok {
+		if ty, ok := t.vars[id.Name]; ok && ty.k == fkProjFn {
+			as, ts := args()
+			if len(as) == 1 && ts[0].k == fkPt {
+				t.notes["pure-projection"] = true
+				return t.ln(id.Name) + " " + as[0], tP
+			}
+			return t.fail("call %s", src(t.pk, x)), tBad
+		}
 	}
 	// a DistanceFunc variable
 	if id, ok := x.Fun.(*ast.Ident); ok {
@@ -1174,6 +1496,16 @@ func (t *ftrans) call(x *ast.CallExpr) (string, fty) {
 		}
 	}
 	sg := fsigs[key]
+	if sg == nil && recvArg == nil && len(x.Args) >= 1 {
+		// a function translated case by case of its type switch, called with a value whose static type
+		// is one of the slice kinds: that case is the one that runs (the interface value is not nil)
+		saved, sp, sn := t.err, t.pending, t.nv
+		_, aty := t.exprOrBool(x.Args[0])
+		t.err, t.pending, t.nv = saved, sp, sn
+		if isList(aty) && listNames[aty.name] != 0 {
+			sg = fsigs[key+"#orb."+aty.name]
+		}
+	}
 	if sg == nil {
 		return t.fail("call of a function that is not translated: %s", fun), tBad
 	}
@@ -1808,6 +2140,15 @@ func (t *ftrans) bindPat(vs []string) string {
 
 func (t *ftrans) ret(results []ast.Expr) string {
 	var rs []string
+	if len(results) == 0 && len(t.namedResults) == len(t.retTys) && len(t.retTys) > 0 {
+		// a bare return: the named results as they stand (not shadowed here: a shadowed one is a compile error in Go)
+		for _, n := range t.namedResults {
+			if ty, ok := t.vars[n]; !ok || ty.ln != "" {
+				return t.fail("bare return with a shadowed result %s", n)
+			}
+			results = append(results, ast.NewIdent(n))
+		}
+	}
 	if len(results) != len(t.retTys) {
 		return t.fail("return arity")
 	}
@@ -1958,6 +2299,38 @@ func (t *ftrans) assign(st *ast.AssignStmt, rest func() string) string {
 	if st.Tok != token.ASSIGN && op == 0 {
 		return t.fail("assignment %s", src(t.pk, st))
 	}
+	if ix, isIx := lhs.(*ast.IndexExpr); isIx && st.Tok == token.ASSIGN {
+		if id, ok := ix.X.(*ast.Ident); ok && isList(t.vars[id.Name]) {
+			// xs[i] = e under `for i := range xs` (i is in range): the list with its i-th element replaced
+			if !t.safeIdx[src(t.pk, lhs)] && t.spec.panicMode != "res" {
+				return t.fail("assignment %s (an element is assigned only where the index is known to be in range, or in a \"res\" function)", src(t.pk, st))
+			}
+			lty := t.vars[id.Name]
+			// Go evaluates the index and the right-hand side, then checks the index
+			wasIn := t.inIndex
+			t.inIndex = true
+			i, ity := t.expr(ix.Index)
+			t.inIndex = wasIn
+			v, ty := t.exprOrBool(rhs)
+			if ty.k != elemTy(lty).k && fUnify(ty, elemTy(lty)).k != elemTy(lty).k {
+				return t.fail("assignment %s", src(t.pk, st))
+			}
+			if elemTy(lty).k == fkFloat && !t.numOK(v, ty) {
+				return "unsupported"
+			}
+			if ity.k != fkInt && ity.k != fkUInt {
+				return t.fail("assignment %s", src(t.pk, st))
+			}
+			if !t.safeIdx[src(t.pk, lhs)] {
+				if !t.indexGuard(ix, t.ln(id.Name), i) {
+					return "unsupported"
+				}
+			}
+			pend := t.take()
+			t.notes["set-value"] = true
+			return t.wrap(pend, letLine(t.ln(id.Name)+" : "+t.leanTy(lty), par(t.ln(id.Name))+".set "+par(i)+" "+par(v), rest()))
+		}
+	}
 	np := len(t.pending)
 	pat, val, ok := t.store(lhs, func(cur string, cty fty) (string, bool) {
 		if len(t.pending) != np {
@@ -2090,11 +2463,22 @@ func (t *ftrans) block(list []ast.Stmt, k string) string {
 		out := ""
 		for _, sp := range gd.Specs {
 			vs := sp.(*ast.ValueSpec)
+			if vs.Type == nil && len(vs.Values) == len(vs.Names) && len(vs.Names) == 1 {
+				// var x = e   (as x := e)
+				v, ty := t.exprOrBool(vs.Values[0])
+				ty = t.defTy(ty)
+				if ty.k == fkBad || ty.k == fkTuple || len(t.pending) != 0 {
+					return t.fail("declaration %s", src(t.pk, st))
+				}
+				name := t.declare(vs.Names[0].Name, ty)
+				out += "let " + name + " : " + t.leanTy(ty) + " := " + v + "\n"
+				continue
+			}
 			if len(vs.Values) != 0 || vs.Type == nil {
 				return t.fail("declaration %s", src(t.pk, st))
 			}
 			ty := fgoTy(vs.Type)
-			zero := map[fkind]string{fkFloat: "0", fkInt: "0", fkBool: "false", fkPt: "⟨0, 0⟩", fkPts: "[]", fkPtss: "[]", fkPtsss: "[]"}[ty.k]
+			zero := map[fkind]string{fkFloat: "0", fkInt: "0", fkBool: "false", fkPt: "⟨0, 0⟩", fkPts: "[]", fkPtss: "[]", fkPtsss: "[]", fkFs: "[]"}[ty.k]
 			if zero == "" {
 				return t.fail("declaration %s", src(t.pk, st))
 			}
@@ -2162,6 +2546,31 @@ func writes(n ast.Node, name string) bool {
 		return !found
 	})
 	return found
+}
+
+// onlyElemWrites: the node writes to xs, and only by statements `xs[i] = e`
+func onlyElemWrites(pk *pkgFiles, n ast.Node, xs, i string) bool {
+	good, other := 0, false
+	ast.Inspect(n, func(x ast.Node) bool {
+		if as, ok := x.(*ast.AssignStmt); ok && as.Tok == token.ASSIGN && len(as.Lhs) == 1 {
+			if ix, ok := as.Lhs[0].(*ast.IndexExpr); ok && src(pk, ix) == xs+"["+i+"]" {
+				good++
+				// the rest of the statement must not write xs
+				if writes(as.Rhs[0], xs) {
+					other = true
+				}
+				return false
+			}
+		}
+		switch st := x.(type) {
+		case *ast.AssignStmt, *ast.IncDecStmt, *ast.ValueSpec, *ast.RangeStmt, *ast.UnaryExpr, *ast.FuncLit:
+			if writes(st, xs) {
+				other = true
+			}
+		}
+		return true
+	})
+	return good > 0 && !other
 }
 
 // declaredBy: the names a statement declares in the scope it stands in
@@ -2485,6 +2894,9 @@ type floop struct {
 	list    string // the Lean list the loop runs over
 	prelude string // let-lines in front of the body
 	xs      string // Go name of the slice
+	// for i := range xs: the body's only writes to xs are xs[i] = e (the slice is then part of the state;
+	// its length does not change)
+	elemWrites bool
 }
 
 // checkLoopBody: no nested loops, closures, break, goto
@@ -2514,7 +2926,7 @@ func (t *ftrans) emitLoop(body *ast.BlockStmt, lp floop, setup func(), rest func
 	}
 	vs := t.fassignedAt(body.List, 1)
 	for _, v := range vs {
-		if v == lp.xs {
+		if v == lp.xs && !lp.elemWrites {
 			return t.fail("loop assigns the slice")
 		}
 	}
@@ -2681,6 +3093,10 @@ func (t *ftrans) forStmt(st *ast.ForStmt, rest func() string) string {
 	}
 	if bad == "" {
 		ast.Inspect(st.Body, scan)
+		if bad != "" {
+			// the counter or the slice is used in other ways: the loop over the indices
+			return t.forIndexLoop(st, xs, iv, lo, kk, rest)
+		}
 	}
 	if bad != "" {
 		return t.fail("loop body: %s", bad)
@@ -2727,6 +3143,38 @@ func (t *ftrans) forStmt(st *ast.ForStmt, rest func() string) string {
 	return t.emitLoop(st.Body, lp, setup, rest)
 }
 
+// for i := lo; i < len(xs)-k; i++ { … i … }  with the counter used freely (other slices indexed by it, …):
+// a fold over the indices lo, …, len(xs)-k-1 = List.range' lo (xs.length - (k+lo)) (none when len(xs)-k <= lo:
+// the truncated subtraction); xs[i], …, xs[i+k] are in range, any other index is checked ("res") or total.
+func (t *ftrans) forIndexLoop(st *ast.ForStmt, xs, iv string, lo, kk int, rest func() string) string {
+	if t.intTy() != "Nat" || lo < 0 || kk < 0 {
+		return t.fail("loop over the indices in an Int function")
+	}
+	for _, n := range []string{xs, iv} {
+		if writes(st.Body, n) {
+			return t.fail("loop body: %s is assigned or declared inside the loop", n)
+		}
+	}
+	lp := floop{list: fmt.Sprintf("(List.range' %d (%s.length - %d))", lo, par(t.ln(xs)), kk+lo)}
+	setup := func() {
+		t.declare(iv, tI)
+		safe := map[string]bool{xs + "[" + iv + "]": true}
+		for c := 1; c <= kk; c++ {
+			safe[fmt.Sprintf("%s[%s+%d]", xs, iv, c)] = true
+		}
+		t.safeIdx = safe
+	}
+	saved := t.copyVars()
+	t.depth++
+	setup()
+	lp.binders = "(" + t.ln(iv) + " : Nat)"
+	t.depth--
+	t.vars = saved
+	t.safeIdx = nil
+	t.notes["range-index"] = true
+	return t.emitLoop(st.Body, lp, setup, rest)
+}
+
 // for _, x := range xs { … }        =>  a fold over xs
 // for i := range xs / for i, x := …  =>  a fold over List.range xs.length, reading xs.getD i
 func (t *ftrans) rangeStmt(st *ast.RangeStmt, rest func() string) string {
@@ -2754,7 +3202,12 @@ func (t *ftrans) rangeStmt(st *ast.RangeStmt, rest func() string) string {
 	el := elemTy(t.vars[xs])
 	elT := t.leanTy(el)
 	// the body neither assigns nor declares again the slice, the index, the element
+	elemWrites := false
 	for _, n := range []string{xs, key.Name, val} {
+		if n == xs && key.Name != "_" && onlyElemWrites(t.pk, st.Body, xs, key.Name) {
+			elemWrites = true
+			continue
+		}
 		if n != "_" && (writes(st.Body, n) || n == "len") {
 			return t.fail("loop body: %s is assigned or declared inside the loop", n)
 		}
@@ -2782,7 +3235,7 @@ func (t *ftrans) rangeStmt(st *ast.RangeStmt, rest func() string) string {
 	if t.intTy() != "Nat" {
 		return t.fail("range loop with an index in an Int function")
 	}
-	lp := floop{xs: xs, list: "(List.range " + par(xsL) + ".length)"}
+	lp := floop{xs: xs, list: "(List.range " + par(xsL) + ".length)", elemWrites: elemWrites}
 	get := fmt.Sprintf("(%s.getD %%s %s)", par(xsL), zeroOf(el))
 	setup := func() {
 		i := t.declare(key.Name, tI)
@@ -2901,6 +3354,7 @@ func (t *ftrans) translate(fd *ast.FuncDecl, qual string) (def string, sg *fsig)
 	}
 	var ret fty
 	var body string
+	namedPrelude := ""
 	if t.spec.prefixUntil != "" {
 		var prefix []ast.Stmt
 		for _, s := range fd.Body.List {
@@ -2943,9 +3397,22 @@ func (t *ftrans) translate(fd *ast.FuncDecl, qual string) (def string, sg *fsig)
 			}
 			if len(r.Names) > 0 {
 				for _, nm := range r.Names {
-					if mentions(fd.Body, nm.Name) {
-						t.fail("named result %s is used", nm.Name)
+					if !mentions(fd.Body, nm.Name) {
+						continue
 					}
+					// a named result that is used: a variable, zero at the start, returned by a bare `return`
+					// (no defer can change it afterwards: defer is outside the subset)
+					ty := fgoTy(r.Type)
+					zero := map[fkind]string{fkFloat: "0", fkInt: "0", fkBool: "false", fkPt: "⟨0, 0⟩"}[ty.k]
+					if zero == "" || nm.Name == "_" || t.spec.typeCase != "" {
+						t.fail("named result %s is used", nm.Name)
+						continue
+					}
+					namedPrelude += "let " + t.declare(nm.Name, ty) + " : " + t.leanTy(ty) + " := " + zero + "\n"
+					t.namedResults = append(t.namedResults, nm.Name)
+				}
+				if len(t.namedResults) != 0 && len(t.namedResults) != len(rtys) {
+					t.fail("some results are named and used, others not")
 				}
 			}
 		}
@@ -2955,7 +3422,7 @@ func (t *ftrans) translate(fd *ast.FuncDecl, qual string) (def string, sg *fsig)
 		} else {
 			ret = fty{k: fkTuple, el: rtys}
 		}
-		body = t.block(stmts, "")
+		body = namedPrelude + t.block(stmts, "")
 	}
 	if t.err == "" && len(t.pending) != 0 {
 		t.fail("internal: panicking operations were not placed")
@@ -2994,8 +3461,23 @@ func (t *ftrans) translate(fd *ast.FuncDecl, qual string) (def string, sg *fsig)
 		nie: isList(ret) && t.retNie && t.spec.prefixUntil == ""}
 }
 
-var extraOrder = []string{"sqrt", "next", "inf", "eb"}
-var extraTypes = map[string]string{"sqrt": "α → α", "next": "α → α", "inf": "α", "eb": "Bound α"}
+var mercConsts = map[string]fconst{"0.5": {"(1 / 2)", nil, ""}, "0.9999": {"c9999", []string{"c9999"}, ""}, "math.Pi": {"pi", []string{"pi"}, ""},
+	"-2*math.Pi": {"(-twoPi)", []string{"twoPi"}, ""}, "2*math.Pi": {"twoPi", []string{"twoPi"}, ""}, "180.0/math.Pi": {"d180pi", []string{"d180pi"}, ""}}
+
+var projConsts = map[string]fconst{"math.Pi": {"pi", []string{"pi"}, ""}, "orb.EarthRadius": {"R", []string{"R"}, ""},
+	"earthRadiusPi": {"rPi", []string{"rPi"}, "orb.EarthRadius*math.Pi"}, "earthRadiusPi/180.0": {"rPi180", []string{"rPi180"}, ""},
+	"180.0/math.Pi": {"d180pi", []string{"d180pi"}, ""}, "math.Pi/2.0": {"piHalf", []string{"piHalf"}, ""}}
+
+var geoConsts = map[string]fconst{"math.Pi": {"pi", []string{"pi"}, ""}, "2*math.Pi": {"(2 * pi)", []string{"pi"}, ""},
+	"orb.EarthRadius": {"R", []string{"R"}, ""}, "2.0*orb.EarthRadius": {"(2 * R)", []string{"R"}, ""}, "-1": {"(-1)", nil, ""},
+	"-90": {"(-90)", nil, ""}, "-180": {"(-180)", nil, ""}, "90": {"90", nil, ""}, "180": {"180", nil, ""},
+	"111131.75": {"mPerDeg", []string{"mPerDeg"}, ""}}
+
+var extraOrder = []string{"sqrt", "next", "inf", "eb", "abs", "cos", "asin", "atan2", "fmax", "fmin", "R", "mPerDeg", "sin", "log", "atan", "exp", "tan",
+	"pi", "twoPi", "piHalf", "d180pi", "rPi", "rPi180", "c9999", "latMax", "ofNat"}
+var extraTypes = map[string]string{"sqrt": "α → α", "next": "α → α", "inf": "α", "eb": "Bound α",
+	"abs": "α → α", "sin": "α → α", "cos": "α → α", "asin": "α → α", "atan2": "α → α → α", "fmax": "α → α → α", "fmin": "α → α → α",
+	"R": "α", "mPerDeg": "α", "atan": "α → α", "exp": "α → α", "tan": "α → α", "d180pi": "α", "c9999": "α", "piHalf": "α", "rPi": "α", "rPi180": "α", "log": "α → α", "pi": "α", "twoPi": "α", "latMax": "α", "ofNat": "Nat → α"}
 
 var floatVariables = "variable {α : Type} [Add α] [Sub α] [Mul α] [Div α] [Neg α] [LT α] [LE α] [DecidableLT α] [DecidableLE α]\n" +
 	"  [BEq α] [Min α] [Max α] [OfNat α 0] [OfNat α 1] [OfNat α 2] [OfNat α 6] [NatCast α]"
@@ -3016,14 +3498,25 @@ func genFloatTies() []*leanFile {
 		l.p("   definition equal to the model definition.  Do not edit. -/")
 		l.p("import Orb.Core")
 		l.p("import Orb.LoopForms")
+		for _, im := range sp.leanImps {
+			l.p("import %s", im)
+		}
 		for _, im := range sp.imports {
 			l.p("import Generated.%s", im)
 		}
 		l.p("namespace Generated.%s", sp.file)
 		l.p("open Orb Orb.Core")
 		l.p("open Orb.LoopForms (foldlRet foldPairsRet)")
+		l.p("set_option linter.unusedVariables false")
+		for _, o := range sp.opens {
+			l.p("open %s", o)
+		}
 		l.p("")
-		l.p("%s", floatVariables)
+		if sp.vars != "" {
+			l.p("%s", sp.vars)
+		} else {
+			l.p("%s", floatVariables)
+		}
 		l.p("")
 		if sp.file == "BoundGo" {
 			l.p("/-- Go `==` on `orb.Point` (an array of two float64) -/")
@@ -3054,13 +3547,16 @@ func genFloatTies() []*leanFile {
 				goName += "[case " + f.typeCase + "]"
 			}
 			pk, fd := findFunc(f.rel, f.recv, f.name)
+			if f.varField {
+				pk, fd = findVarFieldFunc(f.rel, f.name)
+			}
 			if fd == nil || fd.Body == nil {
 				anchorLost(goName + " (float tie): function not found")
 				sum.Unresolved[goName] = "function not found"
 				l.p("-- %s: NOT FOUND\n", goName)
 				continue
 			}
-			t := &ftrans{pk: pk, spec: f, vars: map[string]fty{}, extras: map[string]bool{}, notes: map[string]bool{}}
+			t := &ftrans{pk: pk, spec: f, vars: map[string]fty{}, extras: map[string]bool{}, notes: map[string]bool{}, numerals: sp.numerals}
 			def, sg := t.translate(fd, "Generated."+sp.file+"."+f.lean)
 			if t.err != "" || sg == nil {
 				if t.err == "" {
@@ -3082,6 +3578,12 @@ func genFloatTies() []*leanFile {
 				}
 				if t.notes["range-index"] {
 					m["range-index"] = "for i := range xs runs over List.range xs.length (len(xs) is evaluated once; the body does not assign xs)"
+				}
+				if t.notes["set-value"] {
+					m["set-value"] = "xs[i] = e under for i := range xs is xs.set i e: lists are values, that the caller's backing array is written is not part of the translation"
+				}
+				if t.notes["pure-projection"] {
+					m["pure-projection"] = "an orb.Projection is translated as a pure function Pt α → Pt α"
 				}
 				if t.notes["append-value"] {
 					m["append-value"] = "append(xs, v) is xs ++ [v]: lists are values, the sharing of backing arrays is not part of the translation"
